@@ -71,10 +71,25 @@ def shim_max(*a, **k):
 
 
 # ------------------------------------------------------------------ numpy
+def _dim(x):
+    if is_sym(x):
+        sx = z3.simplify(x)
+        if z3.is_int_value(sx):
+            return sx.as_long()
+        rt = current()
+        hints = getattr(rt, "size_hints", None)
+        if not hints:
+            raise Unsupported("array size depends on symbolic data (enumerate what determines it)")
+        # the harness knows the size (e.g. number of non-null rows of an enumerated null pattern): checked as an obligation
+        rt.check("size_hint", x == hints[0])
+        return int(hints[0])
+    return int(x)
+
+
 def _shape(shape):
-    if isinstance(shape, (int, real_np.integer)):
-        return (int(shape),)
-    return tuple(int(s) for s in shape)
+    if isinstance(shape, (int, real_np.integer)) or is_sym(shape):
+        return (_dim(shape),)
+    return tuple(_dim(s) for s in shape)
 
 
 def _infer_dtype(fill):
@@ -602,7 +617,10 @@ class PDShim:
         pass
 
     class MultiIndex(_S):
-        pass
+        def __init__(self, codes=None, levels=None, names=None, **kw):
+            self.codes = codes
+            self.levels = levels
+            self.names = names
 
     class CategoricalDtype(_S):
         pass
